@@ -329,6 +329,9 @@ func (c *cors) headerIsAllowed(r *http.Request) bool {
 
 	for _, v := range strings.Split(h, ",") {
 		v = strings.TrimSpace(v)
+		if v == "" { // 列表中的空元素（比如结尾的逗号）不表示任何报头
+			continue
+		}
 		if !slices.ContainsFunc(c.AllowHeaders, func(h string) bool { return strings.EqualFold(h, v) }) { // 报头名称不区分大小写
 			return false
 		}
